@@ -303,3 +303,10 @@ MUTANTS = [
 EQUIVS = [
     E("c12-eq-gte", KV, "                    if count == limit:", "                    if count >= limit:"),
 ]
+
+# functions whose syntactic mutants are used for the thorough tier's sensitivity figure (sa/automut.py)
+ANCHORS = [
+    "nostr_relay.storage.db:Subscription.build_query",
+    "nostr_relay.storage.kv:planner",
+    "nostr_relay.storage.kv:execute_one_plan",
+]
